@@ -307,6 +307,10 @@ def check_C10(tier, nproc=None):
             c.add(Job('vH_C03', [('tmpl', 'd', t), ('int', which)], weight=4 ** 6, opts={'float_contract': True, 'scale_depth': 3}))
     nwin = _window_jobs(c, 'vH_C10_scalars', [('int', 4)], tier, docs=LONG_DOCS + [b' ' * 20 + b'18446744073709551615 ', b'-1234567890123456789012.5e-17'])
     nwin += _window_jobs(c, 'vH_C10_strings', [('int', 3)], tier, docs=[b'"abcdefghijklmnopqrstuvwxyz0123456789"', b'"abcdefghi\\njklmnopqrs\\u00e9tuvwxyz\\ud83d\\ude00"'])
+    # the UTF-8 helpers with every tight destination capacity (any run-time panic in a harness is a C10 candidate)
+    for n in range(0, 4 if tier == 'quick' else 5):
+        for pre, spare in ((0, 1), (1, 2), (2, 3), (0, 2)) + (((1, 1), (0, 3), (2, 5)) if tier != 'quick' else ()):
+            c.add(Job('vH_C17', [('bytes', 'd', n), ('int', pre), ('int', spare)], weight=6 ** n))
     c.bounds = {'N_handlers': N, 'N_entry_points': NS, 'handler_offsets': 'free 64-bit value at every call', 'long_document_windows': LONG_WINDOW_BOUND % nwin,
                 'beyond_depth_limit': 'generic decoding of nesting templates with the limit scaled to 3'}
     c.must_reach = ['C10.handler-returned', 'C10.scalars-done', 'C10.strings-done']
@@ -462,7 +466,23 @@ def check_C17(tier, nproc=None):
             c.add(Job('vH_C17', [('bytes', 'd', n), ('int', pre), ('int', spare)], weight=6 ** n))
     for shape in range(4):
         c.add(Job('vH_C17_tree', [('bytes', 'd', 5), ('int', shape)], weight=3000))
-    c.bounds = {'N': N, 'trees': '4 shapes (nested slices/maps, depth 3) with 3 symbolic strings (2+1+1 bytes) and a symbolic 1-byte key'}
+    # long strings (beyond any block size a chunked validator may use) of 1-, 2-, 3- and 4-byte characters at
+    # every alignment, one free byte at every offset (thorough: also two)
+    P = 'a\u00e9\u20ac\U0001F600'.encode('utf-8')
+    L17 = [P * 8, b'bb' + P * 7 + b'zz'] if tier == 'quick' else [P * 8, b'b' + P * 8, b'bb' + P * 7 + b'zz', b'bbb' + P * 14]
+    # ... and runs of 4-byte characters at each of the four alignments (a character then straddles every block boundary
+    # in every way); thorough: 3- and 2-byte runs too
+    F4, F3, F2 = '\U0001F600'.encode('utf-8'), '\u20ac'.encode('utf-8'), '\u00e9'.encode('utf-8')
+    L17 += [b'b' * k + F4 * 17 for k in range(4)]
+    if tier != 'quick':
+        L17 += [b'b' * k + F3 * 23 for k in range(3)] + [b'b' * k + F2 * 35 for k in range(2)] + [b'b' * k + F4 * 34 for k in range(4)]
+    nwin = 0
+    for d in L17:
+        for t in window_templates(d, 1) + (window_templates(d, 2, step=3) if tier != 'quick' else []):
+            c.add(Job('vH_C17', [('tmpl', 'd', t), ('int', 1), ('int', 2)], weight=60, opts={'nsamples': 0}))
+            nwin += 1
+    c.bounds = {'N': N, 'trees': '4 shapes (nested slices/maps, depth 3) with 3 symbolic strings (2+1+1 bytes) and a symbolic 1-byte key',
+                'long_string_windows': '%d jobs: %s-byte strings of 1/2/3/4-byte characters at every alignment with a window of free bytes at every offset' % (nwin, [len(d) for d in L17])}
     c.must_reach = ['C17.compared', 'C17.tree']
     _std(c, ['slice/map helpers: see level_note'])
     c.outside = ['strings longer than N bytes (every 1..4-byte sequence class is inside the bound)', 'trees other than the four shapes; keys that collide after replacement']
